@@ -639,6 +639,9 @@ def m0_slices():
     m.method("Sl", "refs", None, [("r", StructT("Refs", borrowed=True))], StructT("Refs", borrowed=True), ret_from=PassThrough("r"))
     m.method("Sl", "views2", None, [("v", StructT("Views2", borrowed=True))], StructT("Views2", borrowed=True), ret_from=PassThrough("v"))
     m.method("Sl", "opt_slice", None, [("x", Opt(Slice(P("u8"), "ref"), "std")), ("y", Opt(Str("utf8"), "std"))], Opt(P("u8"), "std"))
+    m.method("Sl", "opt_strs8", None, [("a", Opt(StrSlice("unval8"), "std")), ("k", P("u8"))], None)
+    m.method("Sl", "opt_strs16", None, [("k", P("u8")), ("b", Opt(StrSlice("utf16"), "std"))], None)
+    m.method("Sl", "opt_str16", None, [("a", Opt(Str("utf16"), "std")), ("b", Opt(Str("unval8"), "std"))], P("u8"))
     m.method("Sl", "opt_own", None, [("x", Opt(Slice(P("u8"), "box"), "std")), ("k", P("u8"))], None)
     m.method("Sl", "res_slice", None, [("x", Slice(P("f64"), "ref"))], Res(Slice(P("f64"), "ref"), EnumT("Er")), ret_from=None)
     m.methods.pop()  # results carrying borrowed slices are built from seeds only; not generated (kept simple)
